@@ -119,10 +119,12 @@ CHECKS = {
         text="Coq theorems: PieceRx::left tiles every piece length exactly (contiguous from 0, blocks of 1..16384 bytes, all but the "
              "last 16 KiB, sum = length) by induction on the block count (C10_tiling, C10_tiling_sum); a new assignment writes "
              "the first (<= 2) blocks of the tiling for that piece and asked ++ not-yet-asked is the tiling (C10_assignment); "
-             "each further request is exactly the next block (C10_next). Tie: download histories on the real PeerHandler "
+             "each further request is exactly the next block (C10_next); invariant over the whole answer history (C10_answer). Tie: download histories on the real PeerHandler "
              "(answers in order, reversed, duplicated, withheld, foreign, corrupt); every Request frame is decoded and checked "
              "against the tiling, the progress and completion rules by the oracle.",
-        note="Partial: the history-level progress/completion rule has no Coq theorem (oracle step10 on the real task). No axioms.",
+        note="The history of one assignment is covered by an invariant (C10_assignment_invariant, C10_answer: every answer either changes "
+             "nothing or is followed by exactly the next block; completion exactly at the last outstanding block, the requests then being "
+             "the whole tiling). Not modelled: the peer's side. No axioms.",
         technique="Coq proof (induction on blocks) + differential correspondence with a tiling oracle on observed Request frames",
         design="2/C10"),
     "C11": dict(
@@ -160,14 +162,17 @@ CHECKS = {
         technique="Coq proof (Permutation/StronglySorted) + membership correspondence on the real Session",
         design="2/C13"),
     "C14": dict(
-        text="Coq theorem: a newcomer's bitfield never takes the regular unchoked peers above ten (C14_bitfield_bound, counting lemma "
-             "over the peer map). The rotation's bound and policy are decided by the correspondence: histories of up to 25 peers "
+        text="Coq theorems: a newcomer's bitfield never takes the regular unchoked peers above ten (C14_bitfield_bound, counting lemma "
+             "over the peer map); after every rotation over all connected peers, for every rate order (ties) and optimistic pick, at "
+             "most ten peers plus the new optimistic ones are unchoked (C14_rotation_bound, loop invariant + permutation argument). "
+             "The rotation's policy is decided by the correspondence: histories of up to 25 peers "
              "with bitfield arrivals, interest changes and rotations (rate orders with ties, optimistic pick as "
              "new_optimistic_peers) on the real Session; after every command the bound (10 + 1), after every rotation the policy "
              "and the exactness of the broadcast map are evaluated on the observed state. Genuine defect (every bitfield sender "
              "unchoked) found and repaired.",
-        note="Partial: no Coq proof over change_conn_state's loop. Not modelled: broadcast lag; the wrapper's random optimistic pick "
-             "(harness supplies it). No axioms.",
+        note="Partial: the rotation's bound is proved (C14_rotation_bound, loop invariant over change_conn_state); its policy clauses and the "
+             "exactness of the broadcast map are decided by the correspondence oracle only. Not modelled: broadcast lag; the wrapper's "
+             "random optimistic pick (harness supplies it). No axioms.",
         technique="Coq proof (counting lemma) + per-step differential correspondence with policy oracle",
         design="2/C14"),
     "C18": dict(
